@@ -47,7 +47,7 @@ def obligations(tier):
         repo=STR + ["fmtqfn.c", "fmt_ulong.c", "fmt_str.c", "auto_split.c"], lib=["arena_stralloc.c"],
         defines={"ARENA_CAP": 64, "ARENA_SLOTS": 8}, sysrename=["write"],
         grid=[{"CH": c, "K": k} for c in (0, 1) for k in ([3] if quick else [3, 4])],
-        unwind=lambda p: {"vmain": 18, "vf_write": 33, "check_prefix": 33}, unwind_default=12, timeout=900,
+        unwind=lambda p: {"vmain": 18, "vf_write": 9 * p["K"] + 2, "check_prefix": 9 * p["K"] + 2}, unwind_default=12, timeout=900,
         functions=["qmail-send.c:comm_canwrite", "qmail-send.c:comm_write", "qmail-send.c:comm_selprep", "qmail-send.c:comm_do",
                    "qmail-send.c:fnmake_split", "fmtqfn.c:fmtqfn"],
         cuts=["senderadd -> appends a one-byte stand-in (VERP expansion: C10 senderadd)", "spawndied -> observed", "nomem, log* -> no-ops"],
